@@ -80,6 +80,29 @@ def rule_reset(ck, rid="C14.R4"):
         fl.cfg.exit not in fl.cfg.reach(fl.cfg.entry, avoid={n for n, _ in pw})
     ck.require(ok, rid, f, pw[0][1] if pw else "self._current_charging_power = 0", ok="power zeroed on every path", bad="reset must set the charging power to 0 on every path",
                sink="reset-power")
+    # every piece of state a charging step changes is re-initialised by reset: attributes written by the charge routines of a battery
+    # class are written by the reset of that class (the inherited Battery.reset or an override that calls it)
+    for cname in ("Battery", "Linear2StageBattery"):
+        ci = repo.cls(cname)
+        written = {}
+        for mname in ("charge", "_charge", "_charge_stepwise"):
+            m = ci.methods.get(mname)
+            if m is None:
+                continue
+            for n, k, p, t in state_writes(flow_of(m)):
+                if p.startswith("self.") and p.count(".") == 1:
+                    written.setdefault(p, (m, t))
+        rm = repo.method(ci, "reset")
+        reset_writes = {p for n, k, p, t in state_writes(flow_of(rm))}
+        if rm.cls is not None and rm.cls.name != "Battery":
+            # an override: what the base reset restores counts if the override calls it on every path
+            sup = [n for n, c in calls_in(flow_of(rm), "reset") if isinstance(c.func.value, ast.Call) and call_name(c.func.value) == "super"]
+            rfl = flow_of(rm)
+            if sup and rfl.cfg.exit not in rfl.cfg.reach(rfl.cfg.entry, avoid=set(sup)):
+                reset_writes |= {p for n, k, p, t in state_writes(fl)}
+        for p, (m, t) in sorted(written.items()):
+            ck.require(p in reset_writes, rid, m, t, ok=f"{p} is restored by reset", bad=f"{m.qual} changes {p}, which {rm.qual} never restores: after reset the battery "
+                       f"does not behave like a fresh one", sink=f"reset-covers:{cname}:{p}")
     e = repo.fn("EV.reset")
     efl = flow_of(e)
     en = [(n, t) for n, k, p, t in state_writes(efl) if p == "self._energy_delivered"]
